@@ -251,3 +251,161 @@ def sym_cvr(I, name, contests, mark="int", cls=None, phantom=None, pool=None, ta
         "sampled": False,
     }
     return Obj(cls, attrs)
+
+
+# ---------------------------------------------------------------- strings with symbolic parts, pandas abstraction
+
+class SymStr:
+    """an opaque string atom (e.g. a tabulator name): only equality with other strings is observable.  Concrete strings are
+    interned to integer codes; distinct codes = distinct strings."""
+    CODES = {}
+
+    def __init__(self, term):
+        self.t = term
+
+    @classmethod
+    def code(cls, s):
+        if s not in cls.CODES:
+            cls.CODES[s] = len(cls.CODES) + 1
+        return cls.CODES[s]
+
+    def py_eq(self, I, other):
+        if isinstance(other, str):
+            return mkbool(zi(self.t) == SymStr.code(other))
+        if isinstance(other, SymStr):
+            return mkbool(zi(self.t) == zi(other.t))
+        return False
+
+    def py_str(self, I):
+        return self
+
+    def __repr__(self):
+        return f"SymStr({self.t})"
+
+
+class FStr:
+    """result of an f-string / concatenation with symbolic parts: a tuple of parts.  Two such strings are equal iff their parts are
+    (trusted: the fixed separators do not occur inside the parts).  Hashable by identity so that it can key a dict."""
+
+    def __init__(self, parts):
+        self.parts = list(parts)
+
+    def py_eq(self, I, other):
+        if isinstance(other, FStr) and len(other.parts) == len(self.parts):
+            return mkbool(band(*[bterm(I.equal(a, b)) for a, b in zip(self.parts, other.parts)]))
+        return False
+
+    def py_str(self, I):
+        return self
+
+    def __repr__(self):
+        return "FStr(" + "|".join(str(p) for p in self.parts) + ")"
+
+
+class SymSeries:
+    def __init__(self, arr):
+        self.arr = arr
+
+    def py_getattr(self, I, name):
+        from .interp import Builtin
+        from . import npmodel
+
+        def mk(f):
+            return Builtin(name, lambda I_, a, k: f(*a, **k))
+        if name == "sum":
+            return mk(lambda: I.builtins["np.sum"].fn(I, [self.arr], {}))
+        if name == "cumsum":
+            return mk(lambda: SymSeries(npmodel.cum(I, self.arr, "+")))
+        if name == "astype":
+            return mk(lambda t: self)
+        if name == "iloc":
+            return ILoc(self)
+        raise Unsupported("Series." + name)
+
+    def iterate(self):
+        if self.arr.items is not None:
+            return list(self.arr.items)
+        raise Unsupported("iteration over a symbolic Series")
+
+    def py_list(self):
+        r = self.arr.copy()
+        r.is_list = True
+        return list(r.items) if r.items is not None else r
+
+    def py_getitem(self, I, key):
+        from . import npmodel
+        return npmodel.arr_getitem(I, self.arr, key)
+
+
+class ILoc:
+    def __init__(self, owner):
+        self.owner = owner
+
+    def py_getitem(self, I, key):
+        if isinstance(self.owner, SymSeries):
+            return self.owner.arr.at_checked(key)
+        return FrameRow(self.owner, key)
+
+
+class FrameRow:
+    def __init__(self, frame, k):
+        self.frame, self.k = frame, k
+
+    def py_getitem(self, I, key):
+        if isinstance(key, list):
+            return [self.frame.cols[c].at_checked(self.k) for c in key]
+        if key not in self.frame.cols:
+            raise PyRaise("KeyError", repr(key))
+        return self.frame.cols[key].at_checked(self.k)
+
+
+class SymFrame:
+    """pandas DataFrame abstracted to its columns (name -> SymArr of equal length).  Trusted pandas contracts: column read and
+    assignment, .sum(), .cumsum(), .iloc[k][col], concat of one row, astype(str) (identity on the abstract values)."""
+
+    def __init__(self, cols, nrows):
+        self.cols = dict(cols)
+        self.nrows = nrows
+
+    def py_getitem(self, I, key):
+        if isinstance(key, str):
+            if key not in self.cols:
+                raise PyRaise("KeyError", repr(key))
+            return SymSeries(self.cols[key])
+        raise Unsupported("DataFrame[...] with " + type(key).__name__)
+
+    def py_setitem(self, I, key, v):
+        if isinstance(v, SymSeries):
+            v = v.arr
+        if not isinstance(v, SymArr):
+            raise Unsupported("DataFrame column assignment of " + type(v).__name__)
+        self.cols[key] = v
+
+    def py_getattr(self, I, name):
+        from .interp import Builtin
+        if name == "columns":
+            return list(self.cols.keys())
+        if name == "iloc":
+            return ILoc(self)
+        if name == "copy":
+            return Builtin("copy", lambda I_, a, k: SymFrame({c: v.copy() for c, v in self.cols.items()}, self.nrows))
+        raise Unsupported("DataFrame." + name)
+
+    def py_len(self, I):
+        return mkint(self.nrows)
+
+
+def pd_concat_one_row(I, frame, row):
+    """pd.concat([frame, pd.DataFrame([row])], ignore_index=True): every column gets the row's value appended"""
+    from . import npmodel
+    cols = {}
+    for c, arr in frame.cols.items():
+        if c not in row:
+            raise Unsupported("concat: row lacks column " + c)
+        v = row[c]
+        if v is None:
+            v = SymStr(z3.IntVal(0)) if arr.kind == "obj" else 0
+        elif arr.kind == "obj":
+            v = SymStr(z3.IntVal(SymStr.code(str(v)))) if not isinstance(v, SymStr) else v
+        cols[c] = npmodel.concat(I, arr, SymArr(0, kind=arr.kind, items=[v]))
+    return SymFrame(cols, mkint(iadd(frame.nrows, 1)))
